@@ -185,6 +185,10 @@ class Trees:
             os.makedirs(os.path.dirname(d), exist_ok=True)
         return d
     def hash(self, root):
+        try:
+            root.encode('utf-8')
+        except UnicodeEncodeError:      # a path that is not valid UTF-8 cannot travel in a JSON string
+            return self.avh.call({'op': 'hash_tree_hex', 'dir_hex': os.fsencode(root).hex()})
         return self.avh.call({'op': 'hash_tree', 'dir': root})
     def build_hash(self, tree, rng, under=None, empty_dirs=(), keep=False, alt=False, order=None):
         root = self.fresh(under, alt)
@@ -232,6 +236,19 @@ def mutations(rng, tree):
                 t3[tuple(newp)] = c
                 out.append(('rename', True, t3, ()))
                 break
+        # near-miss renames: letter case, Unicode normalisation form, trailing space
+        import unicodedata
+        for kind, f in (('rename-case', lambda x: x.swapcase()), ('rename-nfd', lambda x: unicodedata.normalize('NFD', x)),
+                        ('rename-space', lambda x: x + ' ')):
+            try:
+                nn = f(p[-1])
+            except Exception:
+                continue
+            newp = p[:-1] + (nn,)
+            t5 = dict(t2)
+            if nn != p[-1] and valid_add(t5, newp) and '.git' not in newp:
+                t5[newp] = c
+                out.append((kind, True, t5, ()))
     # add
     for _ in range(3):
         depth = rng.choice([0, 1, 2])
@@ -354,10 +371,12 @@ def run_tree_stream(ctx, nbase):
     for c in ctx.corr('tree', HEADER, 'check_tree', T_TREE, cases, shard_chars=45000):
         viol(ctx, 'model hash_tree (entries or hashed text) and implementation disagree', c, no_input=True)
 
-def run_file_root(ctx, T, rng, cases):
+def run_file_root(ctx, T, rng, cases, fixed=None):
     """a module root that is a single file (prompt/command modules)"""
     name = rng.choice(PLAIN_FILES + ['back\\slash.md', 'new\nline.md', '.git', 'bad' + bad(0xff)])
     content = gen_content(rng)
+    if fixed:
+        name, content = fixed
     d = T.fresh(); os.makedirs(d)
     fp = os.path.join(d, name)
     with open(fp, 'wb') as f: f.write(content)
@@ -471,7 +490,7 @@ def gen_local_world(rng, sb):
     for k, mid in enumerate(ids):
         ty = rng.choice(list(TYPES))
         isf = TYPES[ty] == 'file' and rng.random() < 0.8
-        style = rng.choice(['plain'] * 5 + ['backslash', 'dot', 'trailing', 'missing'])
+        style = rng.choice(['plain'] * 4 + ['backslash', 'backslash', 'dot', 'trailing', 'missing'])
         base = 'modules/%s/m%d' % (ty, k)
         if isf: base += '.md'
         if style == 'backslash':
@@ -642,7 +661,22 @@ class GitWorld:
     def tag(self, name, annotated):
         self.git(['tag'] + (['-a', '-m', 'rel'] if annotated else []) + [name], self.work)
     def checkout_dir(self, commit):
-        return os.path.join(self.sb.aphome, 'cache', 'git', sha256_hex(self.url.encode()), commit)
+        canonical = os.path.join(self.sb.aphome, 'cache', 'git', sha256_hex(self.url.encode()), commit)
+        if os.path.isdir(canonical):
+            return canonical
+        # a different store layout: any checkout below cache/git that is at this commit
+        base = os.path.join(self.sb.aphome, 'cache', 'git')
+        if os.path.isdir(base):
+            for a in sorted(os.listdir(base)):
+                for b in sorted(os.listdir(os.path.join(base, a))) if os.path.isdir(os.path.join(base, a)) else []:
+                    d = os.path.join(base, a, b)
+                    if os.path.isdir(os.path.join(d, '.git')):
+                        try:
+                            if self.git(['rev-parse', 'HEAD'], d) == commit:
+                                return d
+                        except InfraError:
+                            pass
+        return canonical
     def module_root(self, commit, subdir):
         d = self.checkout_dir(commit)
         return os.path.join(d, subdir) if subdir.strip() else d
@@ -763,6 +797,7 @@ def run_git_stream(ctx, nscen, seeds=None):
                 g = lm['resolved_source'].get('git')
                 if g and (g['commit'] != c1 or lm['resolved_version'] != c1):
                     viol(ctx, 'lock recorded commit %s for ref %s that points at %s' % (g['commit'], ref, c1), {**case, 'lock': lm})
+            check_lock_content(ctx, gw, l1, case, 'lock')
             tx = tx_of([l1])
             lock_cases.append((cq.cpair(mterm, wterm, rterm, co0, ctx_tx(tx), cq.copt(cq.clist(obs_locked_terms(l1)))),
                                {**case, 'step': 'lock', 'impl_lock': l1}))
@@ -819,6 +854,10 @@ def run_git_stream(ctx, nscen, seeds=None):
             kind = rng.choice(['content', 'content', 'add', 'remove', 'rename', 'git-meta', 'outside', 'lockfile-sha', 'chmod'])
             victim = os.path.join(mroot, 'SKILL.md') if target_sd else os.path.join(mroot, 'README.md')
             content_changed = True
+            if kind != 'lockfile-sha' and not os.path.exists(victim):
+                viol(ctx, 'after lock+fetch the cached checkout of the locked commit is not where the store keeps checkouts',
+                     {**case, 'expected': victim}, no_input=True)
+                continue
             if kind == 'content':
                 world.write(victim, open(victim, 'rb').read().replace(b'v1', b'TAMPERED') + b'!')
             elif kind == 'add':
@@ -909,6 +948,22 @@ def run_git_stream(ctx, nscen, seeds=None):
             else:
                 open(os.path.join(sb.repo, 'agentpack.lock.json'), 'w').write('{not json')
                 observe_upstream('bad-lockfile', 0, None)
+            # ---- lock again after the branch moved: the new lock describes the new commit's content
+            keys2 = [(gw.url, now, sd) for sd in subdirs]
+            co2 = co_term(gw, keys2)
+            rc, doc, out, err = sb.cli_json(['lock', '--yes'])
+            raw3, l3 = read_lock(sb)
+            ctx.count('git', key=(seed, 'relock-moved'), tags=['lock-after-move'])
+            if rc != 0 or l3 is None:
+                viol(ctx, 'lock failed after the remote branch moved', {**case, 'stdout': out[:1200]})
+            else:
+                for lm in l3['modules']:
+                    g = lm['resolved_source'].get('git')
+                    if g and g['commit'] != now:
+                        viol(ctx, 'lock after the branch moved recorded %s, the ref points at %s' % (g['commit'], now), {**case, 'lock': lm})
+                check_lock_content(ctx, gw, l3, case, 'lock-after-move')
+                lock_cases.append((cq.cpair(mterm, wterm, r2term, co2, ctx_tx(tx_of([l3])), cq.copt(cq.clist(obs_locked_terms(l3)))),
+                                   {**case, 'step': 'lock-after-move', 'impl_lock': l3}))
         finally:
             sb.close()
     if silent_checked:
@@ -924,6 +979,31 @@ def run_git_stream(ctx, nscen, seeds=None):
     for c in ctx.corr('upstream', HEADER, 'check_upstream', T_UP, up_cases, shard_chars=45000):
         viol(ctx, 'model resolve_upstream and the commit `deploy` rendered disagree', c, no_input=True)
 
+def manifest_of(isf, tree):
+    """independent reading of the documented manifest: (path, sha256, size) of every file outside .git, sorted by path"""
+    if isf:
+        (p, cn), = tree.items()
+        return [{'path': p[0], 'sha256': sha256_hex(cn), 'bytes': len(cn)}]
+    return sorted(({'path': '/'.join(p).replace('\\', '/'), 'sha256': sha256_hex(cn), 'bytes': len(cn)}
+                   for p, cn in tree.items() if '.git' not in p), key=lambda e: e['path'].encode('utf-8'))
+
+def pristine_sha(gw, commit, subdir):
+    sd = tuple(c for c in subdir.split('/') if c)
+    full = gw.commits.get(commit)
+    if full is None: return None
+    t = {p[len(sd):]: c for p, c in full.items() if p[:len(sd)] == sd and len(p) > len(sd)}
+    return text_sha(enc_of(manifest_of(False, t)))
+
+def check_lock_content(ctx, gw, doc, case, step):
+    """a locked git module records the hash of the content of the commit it records"""
+    for lm in doc['modules']:
+        g = lm['resolved_source'].get('git')
+        if not g: continue
+        exp = pristine_sha(gw, g['commit'], g.get('subdir', ''))
+        if exp is not None and exp != lm['sha256']:
+            viol(ctx, 'lock recorded commit %s for %s together with a sha256 that is not the hash of that commit\'s files' % (g['commit'][:12], lm['id']),
+                 {**case, 'step': step, 'lock': lm, 'expected_sha256': exp})
+
 def actual_tx(gw, lk, tx, extra=()):
     """add (text, sha) for the manifest of what currently is in the cache for each locked git module;
     the text is built here from the files on disk with hashlib, never by agentpack"""
@@ -933,12 +1013,7 @@ def actual_tx(gw, lk, tx, extra=()):
         v = gw.tree_at(c, sd) if u == gw.url else None
         if v is None: continue
         root, isf, tree = v
-        if isf:
-            ents = [{'path': list(tree)[0][0], 'sha256': sha256_hex(list(tree.values())[0]), 'bytes': len(list(tree.values())[0])}]
-        else:
-            ents = sorted(({'path': '/'.join(p).replace('\\', '/'), 'sha256': sha256_hex(cn), 'bytes': len(cn)}
-                           for p, cn in tree.items() if '.git' not in p), key=lambda e: e['path'].encode('utf-8'))
-        text = enc_of(ents); t[text] = text_sha(text)
+        text = enc_of(manifest_of(isf, tree)); t[text] = text_sha(text)
     return t
 
 # ------------------------------------------------------------------ replay
@@ -956,11 +1031,29 @@ def replay(ctx):
             T = Trees(ctx, avh)
             try:
                 rng = random.Random(0)
+                if case.get('flavor') == 'fileroot':
+                    name = ''.join(chr(0xDC00 + (x - 0x110000)) if x >= 0x110000 else chr(x) for x in case['name'])
+                    cs = []
+                    run_file_root(ctx, T, rng, cs, fixed=(name, bytes.fromhex(case['content'])))
+                    for c in ctx.corr('tree', HEADER, 'check_tree', T_TREE, cs):
+                        viol(ctx, 'model hash_tree and implementation disagree (replayed)', c, no_input=True)
+                    return
                 if st == 'witness' or 'spec' not in case:
                     known_witnesses(ctx, T, rng); return
                 tree = tree_of_spec(case['spec'])
                 _, a = T.build_hash(tree, rng, under=tuple(case['under']) if case.get('under') else None)
                 print('base  :', json.dumps(a)[:600])
+                if 'creation_order' in case:
+                    order = [tuple(p) for p in case['creation_order']]
+                    vs = [T.build_hash(tree, rng, order=order)[1]]
+                    if T.alt:
+                        vs += [T.build_hash(tree, rng, alt=True, order=order)[1], T.build_hash(tree, rng, alt=True, order=order[::-1])[1]]
+                    for v in vs:
+                        print('order :', json.dumps(v)[:300])
+                        if v != a:
+                            report(ctx, 'replayed: the same tree created in a different order hashes differently', case,
+                                   k_classes(visible(tree)))
+                            break
                 if 'mutated_spec' in case:
                     t2 = tree_of_spec(case['mutated_spec'])
                     _, b = T.build_hash(t2, rng, empty_dirs=[tuple(e) for e in case.get('empty_dirs', [])])
@@ -1011,6 +1104,6 @@ def run(ctx):
     if ctx.replay:
         if replay(ctx) is not False:
             return
-    run_tree_stream(ctx, 70 if quick else 900)
-    run_lock_stream(ctx, 10 if quick else 120)
-    run_git_stream(ctx, 8 if quick else 90)
+    run_tree_stream(ctx, 110 if quick else 1500)
+    run_lock_stream(ctx, 24 if quick else 250)
+    run_git_stream(ctx, 16 if quick else 150)
